@@ -1,6 +1,9 @@
 package main
 
 import (
+	"os/exec"
+	"runtime/debug"
+	"github.com/insomniacslk/dhcp/dhcpv4/nclient4"
 	"sync"
 	"strings"
 	"os"
@@ -138,10 +141,70 @@ func observeV6(r *Run, b []byte, m dhcpv6.DHCPv6) int {
 	return n + 14
 }
 
+// busyConn hands out n well-formed IPv4 packets that are not for the reader (TCP, UDP to another port), then one
+// datagram for the bound port, then EOF.
+type busyConn struct {
+	n, i    int
+	foreign [2][]byte
+	last    []byte
+}
+
+func (c *busyConn) ReadFrom(p []byte) (int, net.Addr, error) {
+	switch {
+	case c.i < c.n:
+		f := c.foreign[c.i%2]
+		c.i++
+		return copy(p, f), &net.UDPAddr{}, nil
+	case c.i == c.n:
+		c.i++
+		return copy(p, c.last), &net.UDPAddr{}, nil
+	}
+	return 0, nil, io.EOF
+}
+func (c *busyConn) WriteTo(p []byte, a net.Addr) (int, error) { return len(p), nil }
+func (c *busyConn) Close() error                              { return nil }
+func (c *busyConn) LocalAddr() net.Addr                       { return &net.UDPAddr{} }
+func (c *busyConn) SetDeadline(time.Time) error               { return nil }
+func (c *busyConn) SetReadDeadline(time.Time) error           { return nil }
+func (c *busyConn) SetWriteDeadline(time.Time) error          { return nil }
+
+// runBusyLink is run in a process of its own (harness busylink x x <n>): a raw socket sees every IPv4 packet on the
+// link, so one ReadFrom call may have to pass over any number of packets for others before its datagram comes. With
+// the stack limited to 16 MiB, whatever the reader keeps per skipped packet shows as a crash of that process.
+func runBusyLink(n int) int {
+	debug.SetMaxStack(16 << 20)
+	payload := []byte("the datagram for port 68")
+	mk := func(proto byte, dport int) []byte {
+		return buildFrame(frameSpec{ihl: 5, proto: proto, version: 4, sip: []byte{10, 0, 0, 1}, dip: []byte{10, 0, 0, 2}, sport: 67, dport: dport, payload: payload, truncateTo: -1})
+	}
+	bc := &busyConn{n: n, foreign: [2][]byte{mk(6, 68), mk(17, 33333)}, last: mk(17, 68)}
+	conn := nclient4.NewBroadcastUDPConn(bc, &net.UDPAddr{Port: 68})
+	buf := make([]byte, 1500)
+	k, _, err := conn.ReadFrom(buf)
+	if err != nil || string(buf[:k]) != string(payload) {
+		fmt.Printf("after %d packets for others: read %q, error %v\n", n, buf[:k], err)
+		return 3
+	}
+	return 0
+}
+
 func genC03(r *Run) {
 	log.SetOutput(io.Discard)
 	obs := 0
 	entry := func(name string, b []byte, f func()) { guard(r, name, b, f) }
+	if exe, err := os.Executable(); err == nil {
+		n := r.N(200000, 3000000)
+		out, err := exec.Command(exe, "busylink", "x", "x", strconv.Itoa(n)).CombinedOutput()
+		obs++
+		if err != nil {
+			tail := string(out)
+			if i := strings.Index(tail, "\n\n"); i > 0 {
+				tail = tail[:i]
+			}
+			r.Fail("raw-read-dies-on-a-busy-link", fmt.Sprintf("%d well-formed IPv4 packets for others (TCP, UDP to another port) and then one datagram for the bound port, within one ReadFrom call; stack limited to 16 MiB", n),
+				fmt.Sprintf("the reading process ended with %v: %s", err, trunc(tail, 600)))
+		}
+	}
 
 	// ---- DHCPv4 packets and option lists
 	var v4corpus [][]byte
